@@ -38,13 +38,13 @@ CHECKS = {
  "C14": ("exploration", "model-based property testing of the buddy allocator and the page manager's region logic against a bitset model; bounded-exhaustive enumeration of all op sequences for small capacities",
          "alloc", "Generated and exhaustively enumerated alloc/alloc_lowest/free/record_alloc/resize/reload sequences against a bitset model with iff-conditions for every return value; page-manager level (allocate/free/region shrink step of commit): no growth while an existing region has a suitable block, shrink only removes free pages, allocator contents == live blocks.",
          "Wrapper hooks H4 expose the crate-private allocator; shrink only by trailing free pages.", "DESIGN.md 4/C14"),
- "C15": ("exploration", "property-based testing of pure functions: generated pairs/triples of values of 33 key types vs Rust Ord, round-trip and separator contract; exhaustive enumeration of small domains",
+ "C15": ("exploration", "property-based testing of pure functions: generated pairs/triples of values of 33 key types vs Rust Ord, round-trip and separator contract; exhaustive enumeration of small domains; integer pairs include near relatives (1-2 bits of the encoding flipped)",
          "types", "Seeded generation of value triples for every built-in key type (biased to extremes, shared prefixes, UTF-8 boundaries) plus complete enumeration of small domains; compare == Ord, antisymmetry, transitivity, round-trip, separator validity (length, decodes, re-encodes, a <= s < b).",
          "Reference order is Rust's Ord on a mirrored owned value; uuid/chrono types not covered.", "DESIGN.md 4/C15"),
  "C18": ("exploration", "model-based property testing: generated cursor scripts vs sorted-vector + gap-index model",
          "tableops", "Generated cursor scripts (seek with every bound kind, peek/next/prev, inserts in both directions with fitting/unordered/equal keys, long buffered runs, removals, close/drop, commit/reopen, read-only cursors) compared step by step with a sorted vector and a gap index, and by full scans after every close.",
          "Two key families (u64, &str) with byte values.", "DESIGN.md 4/C18"),
- "C19": ("exploration", "differential testing against redb 3.0.0 (cargo cache) over generated histories in both directions, incl. crash images; oracle = reference model read through the other version by iteration and by point lookups through the branch pages",
+ "C19": ("exploration", "differential testing against redb 3.0.0 (cargo cache) over generated histories in both directions, incl. crash images; oracle = reference model read through the other version by iteration and by point lookups through the branch pages; enumerated grid of every non-composite built-in type as key and value in both directions",
          "compat", "Generated histories written by one version and read (and, old->new, extended) by the other over one shared buffer, default geometry; identical tables, contents, persistent savepoints, integrity verdicts; two known findings listed.",
          "Only one old release (3.0.0) is available offline; page size 4096 / default regions only.", "DESIGN.md 4/C19"),
  "C01": ("fault_enumeration", "crash-state enumeration over recorded histories: proptest-generated histories on a recording backend, enumerated/sampled subsets and tears of unsynced writes at every storage operation, nested crashes in recovery; oracle = reference model's commit points",
